@@ -324,6 +324,62 @@ def work(args):
     return out
 
 
+def cli_cases(res, tier, seed):
+    """image boot through the real command line: --storage-address in decimal and hexadecimal, the default address, both SoCs"""
+    import random
+    from concurrent.futures import ThreadPoolExecutor
+    rng = random.Random(f"{seed}:c07cli")
+    drv = common.Driver()
+    cases = []
+    for soc in ("nrf54h20",):        # the command line has no SoC option: it generates for the nRF54H20 layout
+        for n in ([0x0E1ED000, 236900352, 65536, 4096] if tier == "quick" else [0x0E1ED000, 236900352, 65536, 4096, 0, 10000000, 0x00FF0000]):
+            for sp in common.spellings(n)[:2]:
+                cases.append((soc, n, sp))
+        cases.append((soc, None, None))
+    with tempfile.TemporaryDirectory(prefix="verif_c07cli_") as d:
+        signing.keys_dir()
+        envs = {}
+        for soc in ("nrf54h20",):
+            layout = drv.call({"op": "storage.layout", "soc": soc})["ok"]
+            v, c, role = layout["assignments"][0]
+            b = None
+            k = 0
+            while b is None:
+                b = envelope_for(seed, 990000 + k, v, c, rng, d)
+                k += 1
+            p = os.path.join(d, f"{soc}.suit")
+            open(p, "wb").write(b)
+            envs[soc] = (p, b)
+
+        def one(k):
+            soc, n, sp = cases[k]
+            outd = os.path.join(d, f"o{k}")
+            os.makedirs(outd)
+            args = ["image", "boot", "--input-file", envs[soc][0], "--storage-output-directory", outd] + (["--storage-address", sp] if sp is not None else [])
+            rc, log = common.run_cli(args, d)
+            return rc, log, {f: open(os.path.join(outd, f)).read() for f in os.listdir(outd)}
+        with ThreadPoolExecutor(max_workers=12) as ex:
+            outs = list(ex.map(one, range(len(cases))))
+    for (soc, n, sp), (rc, log, files) in zip(cases, outs):
+        res.case(["cli-boot", soc, n, sp], nontrivial=True)
+        res.count("cli:boot")
+        base = 0x0E1ED000 if n is None else n      # documented default storage address
+        model = drv.call({"op": "storage.boot", "files": [envs[soc][1].hex()], "base": base, "soc": soc, "fs": {}})
+        if rc != 0 or not files:
+            if "ok" in model:
+                res.spec_failures.append({"cli": "image boot", "soc": soc, "storage_address_argument": sp, "what": f"the command line failed (exit {rc})", "log": log[-300:]})
+            continue
+        images = {}
+        for fname, text in files.items():
+            dom = fname.replace("suit_installed_envelopes_", "").replace("_merged.hex", "").upper()
+            images[dom] = drv.call({"op": "ihex.read", "text": text}).get("ok")
+        if "ok" not in model or model["ok"] != images:
+            res.spec_failures.append({"cli": "image boot", "soc": soc, "storage_address_argument": sp, "denotes": base,
+                                      "what": f"--storage-address {sp} on the command line: the images are not those for storage address {base:#x}",
+                                      "segments": {k: [a for a, _ in (v or [])] for k, v in images.items()}})
+    drv.close()
+
+
 def run(tier: str, seed: int) -> int:
     common.ensure_repo_on_path()
     res = Result(PROP, tier, seed)
@@ -352,6 +408,7 @@ def run(tier: str, seed: int) -> int:
             res.spec_failures.append({"job": list(job), "what": p})
         if len(res.samples) < 4 and job[1] % 29 == 0:
             res.sample({"job": list(job), "soc": o["soc"], "envelopes": o["n"], "kconfig": o["kconfig"], "outcome": o["impl"]})
+    cli_cases(res, tier, seed)
     return finish(res, st, RULE, NOTE)
 
 
